@@ -517,13 +517,13 @@ func (p *PQL) Execute() {
 		case ruleAction52:
 			p.addPosStr("_col", text)
 		case ruleAction53:
-			p.addPosStr("_col", text)
+			p.addPosStr("_col", unquote(text))
 		case ruleAction54:
 			p.addPosNum("_row", text)
 		case ruleAction55:
 			p.addPosStr("_row", text)
 		case ruleAction56:
-			p.addPosStr("_row", text)
+			p.addPosStr("_row", unquote(text))
 		case ruleAction57:
 			p.addPosStr("_timestamp", text)
 
@@ -794,21 +794,21 @@ func (p *PQL) Init() {
 							goto l19
 						l23:
 							position, tokenIndex = position19, tokenIndex19
-							if buffer[position] != rune('"') {
-								goto l16
-							}
-							position++
 							{
 								position26 := position
+								if buffer[position] != rune('"') {
+									goto l16
+								}
+								position++
 								if !_rules[ruledoublequotedstring]() {
 									goto l16
 								}
+								if buffer[position] != rune('"') {
+									goto l16
+								}
+								position++
 								add(rulePegText, position26)
 							}
-							if buffer[position] != rune('"') {
-								goto l16
-							}
-							position++
 							{
 								add(ruleAction56, position)
 							}
@@ -2658,7 +2658,7 @@ func (p *PQL) Init() {
 			position, tokenIndex = position248, tokenIndex248
 			return false
 		},
-		/* 20 col <- <((<uint> Action51) / ('\'' <singlequotedstring> '\'' Action52) / ('"' <doublequotedstring> '"' Action53))> */
+		/* 20 col <- <((<uint> Action51) / ('\'' <singlequotedstring> '\'' Action52) / (<('"' doublequotedstring '"')> Action53))> */
 		func() bool {
 			position254, tokenIndex254 := position, tokenIndex
 			{
@@ -2699,21 +2699,21 @@ func (p *PQL) Init() {
 					goto l256
 				l260:
 					position, tokenIndex = position256, tokenIndex256
-					if buffer[position] != rune('"') {
-						goto l254
-					}
-					position++
 					{
 						position263 := position
+						if buffer[position] != rune('"') {
+							goto l254
+						}
+						position++
 						if !_rules[ruledoublequotedstring]() {
 							goto l254
 						}
+						if buffer[position] != rune('"') {
+							goto l254
+						}
+						position++
 						add(rulePegText, position263)
 					}
-					if buffer[position] != rune('"') {
-						goto l254
-					}
-					position++
 					{
 						add(ruleAction53, position)
 					}
@@ -2726,7 +2726,7 @@ func (p *PQL) Init() {
 			position, tokenIndex = position254, tokenIndex254
 			return false
 		},
-		/* 21 row <- <((<uint> Action54) / ('\'' <singlequotedstring> '\'' Action55) / ('"' <doublequotedstring> '"' Action56))> */
+		/* 21 row <- <((<uint> Action54) / ('\'' <singlequotedstring> '\'' Action55) / (<('"' doublequotedstring '"')> Action56))> */
 		nil,
 		/* 22 open <- <('(' sp)> */
 		func() bool {
@@ -3140,13 +3140,13 @@ func (p *PQL) Init() {
 		nil,
 		/* 86 Action52 <- <{p.addPosStr("_col", text)}> */
 		nil,
-		/* 87 Action53 <- <{p.addPosStr("_col", text)}> */
+		/* 87 Action53 <- <{p.addPosStr("_col", unquote(text))}> */
 		nil,
 		/* 88 Action54 <- <{p.addPosNum("_row", text)}> */
 		nil,
 		/* 89 Action55 <- <{p.addPosStr("_row", text)}> */
 		nil,
-		/* 90 Action56 <- <{p.addPosStr("_row", text)}> */
+		/* 90 Action56 <- <{p.addPosStr("_row", unquote(text))}> */
 		nil,
 		/* 91 Action57 <- <{p.addPosStr("_timestamp", text)}> */
 		nil,
